@@ -25,7 +25,9 @@ def run(F, tier):
     jsonsurf.j5(rep, F, S)
     jsonsurf.j6(rep, F, tms)
     jsonsurf.j7(rep, F)
+    jsonsurf.j8(rep, F)
     numdate.strftime_census(rep, F)
+    numdate.t4(rep, F)
     numdate.n1(rep, F)
     r, tabs, ids = dispatch.d1(rep, F)
     rep.programs = len(S.ser) + len(S.de)
